@@ -37,6 +37,7 @@ func keys(m map[string]bool) []string {
 // verifyFunction generates every obligation of one function under contract.
 func verifyFunction(l *Loaded, cs *Contracts, fn *ssa.Function, con *Contract) (res *FuncResult) {
 	e := newEnc(l, cs, fn, con)
+	stateSorts = map[string]string{"alloc": "Int"} // per function: sorts are declared per builder
 	res = &FuncResult{Name: contractName(fn), Builder: e.B}
 	defer func() {
 		if r := recover(); r != nil {
